@@ -143,8 +143,9 @@ func (e *Encoder) writeObject(data interface{}) (int, error) {
 	typ := vv.Type()
 	clsName, ok := e.nameMap[typ.Name()]
 	if !ok {
+		// the name map is the caller's (possibly shared) and is never written:
+		// an entry for an unnamed struct ("") would also capture every unnamed map type
 		clsName = typ.Name()
-		e.nameMap[clsName] = clsName
 	}
 	length, ok := e.existClassDef(clsName)
 	if !ok {
